@@ -12,6 +12,7 @@ import (
 	dtlserrors "github.com/pion/dtls/v3/internal/errors"
 	dtlsstate "github.com/pion/dtls/v3/internal/state"
 	dtlsutil "github.com/pion/dtls/v3/internal/util"
+	"github.com/pion/dtls/v3/pkg/crypto/keyschedule"
 	"github.com/pion/dtls/v3/pkg/crypto/prf"
 	"github.com/pion/dtls/v3/pkg/protocol"
 	"github.com/pion/dtls/v3/pkg/protocol/handshake"
@@ -23,6 +24,7 @@ type State struct {
 	localEpoch, remoteEpoch   uint16
 	localRandom, remoteRandom handshake.Random
 	masterSecret              []byte
+	exporterMasterSecret      []byte // DTLS 1.3 only
 	sequenceNumber            uint64
 	srtpProtectionProfile     SRTPProtectionProfile
 	peerSRTPMKI               []byte
@@ -129,6 +131,7 @@ func generateState13(internalState *dtlsstate.State13) (*State, error) {
 		remoteEpoch:           common.RemoteEpoch(),
 		localRandom:           common.LocalRandom,
 		remoteRandom:          common.RemoteRandom,
+		exporterMasterSecret:  bytes.Clone(internalState.KeySchedule.ExporterMasterSecret),
 		sequenceNumber:        sequenceNumber,
 		srtpProtectionProfile: common.SRTPProtectionProfile(),
 		localConnectionID:     bytes.Clone(common.LocalConnectionID()),
@@ -320,6 +323,9 @@ func (s *State) ExportKeyingMaterial(label string, context []byte, length int) (
 	} else if _, ok := invalidKeyingLabels()[label]; ok {
 		return nil, dtlserrors.ErrReservedExportKeyingMaterial
 	}
+	if s.version.Equal(protocol.Version1_3) {
+		return s.exportKeyingMaterial13(label, length)
+	}
 	cipherSuite, err := s.initializedCipherSuite()
 	if err != nil {
 		return nil, err
@@ -336,6 +342,31 @@ func (s *State) ExportKeyingMaterial(label string, context []byte, length int) (
 	}
 
 	return prf.PHash(s.masterSecret, seed, length, cipherSuite.HashFunc())
+}
+
+// exportKeyingMaterial13 is the RFC 8446 Section 7.5 exporter with an empty
+// context_value, keyed with the exporter_master_secret of the handshake:
+//
+//	HKDF-Expand-Label(Derive-Secret(Secret, label, ""), "exporter", Hash(""), length)
+//
+// The DTLS 1.2 construction does not apply: a DTLS 1.3 session has no RFC 5246
+// master secret, and a PRF keyed with nothing over the hello randoms would be
+// computable by anyone who saw the hellos.
+func (s *State) exportKeyingMaterial13(label string, length int) ([]byte, error) {
+	cipherSuite := ciphersuite.ForID(s.CipherSuiteID, nil)
+	if cipherSuite == nil {
+		return nil, dtlserrors.ErrCipherSuiteNotSet
+	}
+	if len(s.exporterMasterSecret) == 0 {
+		return nil, dtlserrors.ErrHandshakeInProgress
+	}
+	hashFunc := cipherSuite.HashFunc()
+	derived, err := keyschedule.DeriveSecret(hashFunc, s.exporterMasterSecret, label, nil)
+	if err != nil {
+		return nil, err
+	}
+
+	return keyschedule.HkdfExpandLabel(hashFunc, derived, "exporter", hashFunc().Sum(nil), length)
 }
 
 // RemoteRandomBytes returns the remote client hello random bytes.
